@@ -789,7 +789,18 @@ def apply_fn(name: str, args: Tuple[Rat, ...], array: Optional[bool] = None, ext
     return _fn_atom(name, tuple(args), array, extra)
 
 
+LENGTH_HOOK = None        # set by the evaluator in use: Rat array -> its length (for end-relative positions)
+
+
 def opaque(name: str, *args: Rat, array: Optional[bool] = None, extra=None) -> Rat:
+    if name == "at" and len(args) == 2 and LENGTH_HOOK is not None and args[1].is_const() is None:
+        # x[len(x) - k] is x[-k]: one normal form for positions counted from the end
+        try:
+            back = args[1].sub(LENGTH_HOOK(args[0])).is_const()
+        except Exception:
+            back = None
+        if back is not None and back < 0 and Fraction(back).denominator == 1:
+            args = (args[0], Rat.const(back))
     return _fn_atom(name, tuple(args), array, extra)
 
 
